@@ -44,8 +44,8 @@ MISSING = {'obj': -1}
 class Ref:
     def __init__(self, case):
         self.case = case
-        self.pipe = dict((g, steps) for g, steps in case['lib'][0][1])
-        self.pname = case['lib'][0][0]
+        self.pipes = {pn: dict((g, steps) for g, steps in groups) for pn, groups in case['lib']}
+        self.stack = [case['lib'][0][0]]
         self.ctx = {}
         if case.get('dict_in') is not None:
             self.ctx = {k: pv.to_py(v) for k, v in case['dict_in']}
@@ -140,6 +140,79 @@ class Ref:
         if self.budget < 0:
             raise Unsupported('budget')
 
+    @property
+    def pipe(self):
+        return self.pipes[self.stack[-1]]
+
+    # ------------------------------------------------------------ pype
+    def pype(self, c):
+        if c.get('pype') is None:
+            raise Unsupported('pype config')
+        cfg = self.fmt(c['pype'])
+        if not isinstance(cfg, dict) or not isinstance(cfg.get('name'), str) or cfg['name'] not in self.pipes:
+            raise Unsupported('pype')
+        if cfg.get('pipeArg') or any(k in cfg for k in ('loader', 'pyDir', 'parent', 'resolveFromParent', 'skipParse')):
+            raise Unsupported('pype option')
+        args = cfg.get('args')
+        if args is not None and not isinstance(args, dict):
+            raise StepError('pypyr.errors.ContextError', None)
+        if args and 'useParentContext' not in cfg:
+            use_parent = False
+        else:
+            use_parent = bool(cfg.get('useParentContext', True))
+        out = cfg.get('out')
+        if out and use_parent:
+            raise StepError('pypyr.errors.ContextError', None)
+        raise_error = bool(cfg.get('raiseError', True))
+        groups = cfg.get('groups')
+        if isinstance(groups, str):
+            groups = [groups]
+        su, fa = cfg.get('success'), cfg.get('failure')
+        parent_ctx, parent_errs, parent_stack = self.ctx, self.errors, self.stack
+        try:
+            if use_parent:
+                if args:
+                    self.ctx.update(args)
+                self.stack = parent_stack + [cfg['name']]
+            else:
+                self.ctx = dict(args) if args else {}
+                self.errors = []
+                self.stack = [cfg['name']]
+            try:
+                try:
+                    self.run_pipeline(groups, su, fa)
+                except StopPipeline:
+                    pass
+                if not use_parent and out:
+                    if isinstance(out, str):
+                        pairs = {out: out}
+                    elif isinstance(out, list):
+                        pairs = {k: k for k in out}
+                    elif isinstance(out, dict):
+                        pairs = out
+                    else:
+                        raise Unsupported('out')
+                    for pk, ck in pairs.items():
+                        if ck not in self.ctx:
+                            raise StepError('pypyr.errors.KeyNotInContextError', None)
+                        v = self.fmt(self.ctx[ck]) if isinstance(self.ctx[ck], str) else self.ctx[ck]
+                        if isinstance(v, (list, dict, tuple)) and not isinstance(self.ctx[ck], str):
+                            raise Unsupported('out container')
+                        parent_ctx[pk] = v
+            except StepError as e:
+                e.recorded = False      # a pype step records the child's failure itself
+                if raise_error:
+                    raise
+        finally:
+            self.ctx, self.errors, self.stack = parent_ctx, parent_errs, parent_stack
+
+    def run_pipeline(self, groups, su, fa):
+        if not groups:
+            groups = ['steps']
+            if not su and not fa:
+                su, fa = 'on_success', 'on_failure'
+        self.run_groups(groups, su, fa)
+
     # ------------------------------------------------------------ step bodies
     def body(self, st, loc):
         self.tick()
@@ -215,6 +288,8 @@ class Ref:
                 c.pop(k, None)
         elif b == 'clearall':
             c.clear()
+        elif b == 'pype':
+            self.pype(c)
         else:
             raise Unsupported(b)
 
@@ -387,13 +462,11 @@ class Ref:
 
     def run(self):
         c = self.case
-        groups, su, fa = c.get('groups'), c.get('success'), c.get('failure')
-        if not groups:
-            groups = ['steps']
-            if not su and not fa:
-                su, fa = 'on_success', 'on_failure'
         try:
-            self.run_groups(groups, su, fa)
+            try:
+                self.run_pipeline(c.get('groups'), c.get('success'), c.get('failure'))
+            except StopPipeline:
+                pass
             return ['ok']
         except Stop:
             return ['ok']
@@ -402,32 +475,30 @@ class Ref:
 
 
 def prepare(case):
-    """pv steps -> python-valued steps for the reference interpreter (or Unsupported)."""
+    """pv steps -> python-valued steps for the reference interpreter."""
     import engine
-    if len(case['lib']) != 1:
-        raise Unsupported('multi pipeline')
-    groups = []
-    for g, steps in case['lib'][0][1]:
-        out = []
-        for st in steps or []:
-            if st['body'] in ('switch', 'pype'):
-                out.append({'body': st['body'], 'module': engine.BODIES[st['body']][0]})
-                continue
-            d = {'body': st['body'], 'module': engine.BODIES[st['body']][0]}
-            if st.get('simple'):
+    lib = []
+    for pname, pgroups in case['lib']:
+        groups = []
+        for g, steps in pgroups:
+            out = []
+            for st in steps or []:
+                d = {'body': st['body'], 'module': engine.BODIES[st['body']][0]}
+                if st['body'] == 'switch' or st.get('simple'):
+                    out.append(d)
+                    continue
+                if st.get('in') is not None:
+                    d['in'] = {k: pv.to_py(v) for k, v in st['in']}
+                for k in ('foreach', 'run', 'skip', 'swallow', 'onError'):
+                    if k in st:
+                        d[k] = pv.to_py(st[k])
+                for k in ('while', 'retry'):
+                    if st.get(k) is not None:
+                        d[k] = {kk: pv.to_py(vv) for kk, vv in st[k].items()}
                 out.append(d)
-                continue
-            if st.get('in') is not None:
-                d['in'] = {k: pv.to_py(v) for k, v in st['in']}
-            for k in ('foreach', 'run', 'skip', 'swallow', 'onError'):
-                if k in st:
-                    d[k] = pv.to_py(st[k])
-            for k in ('while', 'retry'):
-                if st.get(k) is not None:
-                    d[k] = {kk: pv.to_py(vv) for kk, vv in st[k].items()}
-            out.append(d)
-        groups.append([g, out])
-    return {'lib': [[case['lib'][0][0], groups]], 'dict_in': case.get('dict_in'),
+            groups.append([g, out])
+        lib.append([pname, groups])
+    return {'lib': lib, 'dict_in': case.get('dict_in'),
             'groups': case.get('groups'), 'success': case.get('success'), 'failure': case.get('failure')}
 
 
